@@ -4,6 +4,7 @@ import (
 	"encoding/json"
 	"errors"
 	"fmt"
+	"github.com/ipld/go-ipld-prime/linking/preload"
 	"io"
 	"strings"
 	"sync"
@@ -37,6 +38,8 @@ type WalkCfg struct {
 	Start [][]int `json:"start"`
 	Once  bool    `json:"once"`
 	Skip  []bool  `json:"skip"` // per block id (1-based index i -> Skip[i-1])
+	// Preload: configure a Preloader (set by the harness for the second run of uncontrolled walks; not part of a case)
+	Preload bool `json:"-"`
 }
 
 type WalkVisit struct {
@@ -283,14 +286,14 @@ type observedVisit struct {
 
 // WalkRun is one real walk.
 type WalkRun struct {
-	visits []observedVisit
-	loads  []int
-	err    error
-	panic  interface{}
+	preloaded []int // blocks announced to the Preloader (when one is configured)
+	visits    []observedVisit
+	loads     []int
+	err       error
+	panic     interface{}
 }
 
-func (gr *Graph) run(sel selector.Selector, cfg WalkCfg, matchingOnly bool) WalkRun {
-	var r WalkRun
+func (gr *Graph) run(sel selector.Selector, cfg WalkCfg, matchingOnly bool) (r WalkRun) {
 	ls := gr.LS
 	inner := ls.StorageReadOpener
 	ls.StorageReadOpener = func(lc linking.LinkContext, l datamodel.Link) (io.Reader, error) {
@@ -301,6 +304,7 @@ func (gr *Graph) run(sel selector.Selector, cfg WalkCfg, matchingOnly bool) Walk
 		}
 		return inner(lc, l)
 	}
+	var preloaded []int
 	prog := traversal.Progress{Cfg: &traversal.Config{
 		LinkSystem: ls,
 		LinkTargetNodePrototypeChooser: func(datamodel.Link, linking.LinkContext) (datamodel.NodePrototype, error) {
@@ -309,6 +313,12 @@ func (gr *Graph) run(sel selector.Selector, cfg WalkCfg, matchingOnly bool) Walk
 		LinkVisitOnlyOnce: cfg.Once,
 		StartAtPath:       pathOf(cfg.Start),
 	}}
+	if cfg.Preload {
+		prog.Cfg.Preloader = func(_ preload.PreloadContext, l preload.Link) {
+			preloaded = append(preloaded, gr.BlockOf[l.Link.Binary()])
+		}
+		defer func() { r.preloaded = preloaded }()
+	}
 	// The Config object has been USED BEFORE: an earlier walk with the same *Config, other settings (another start path
 	// of the same length, the opposite link-revisit option, its own budget) and the same selector.  A Config carries
 	// settings, not state: the walk below must not be able to tell.
@@ -466,6 +476,36 @@ func ReplayWalk(cs *WalkCase, o WalkOpts) (*run.Finding, int) {
 		return fail(target, "load-sequence", "different-loads", fmt.Sprintf("spec %v, implementation %v", cs.Loads, r.loads)), checks
 	}
 	checks++
+	// ---- another configuration: a Preloader.  Its lateral scan of every block before the walk proper changes nothing the
+	// walk does (same visits, same loads), and no block is loaded that was not announced to it first.
+	if ctl == "" && wantErr == "" {
+		pc := cs.Cfg
+		pc.Preload = true
+		rp := gr.run(sel, pc, false)
+		ptarget := "traversal.WalkAdv[preloader]"
+		if rp.panic != nil {
+			return fail(ptarget, "walk", "panic", fmt.Sprint(rp.panic)), checks
+		}
+		if rp.err != nil {
+			return fail(ptarget, "error:none", "other", rp.err.Error()), checks
+		}
+		if fmtVisits(rp.visits) != fmtVisits(r.visits) {
+			return fail(ptarget, "visit-sequence", "different-visits", fmt.Sprintf("without a preloader [%s], with one [%s]", fmtVisits(r.visits), fmtVisits(rp.visits))), checks
+		}
+		if fmt.Sprint(rp.loads) != fmt.Sprint(r.loads) {
+			return fail(ptarget, "load-sequence", "different-loads", fmt.Sprintf("without a preloader %v, with one %v", r.loads, rp.loads)), checks
+		}
+		announced := map[int]bool{}
+		for _, b := range rp.preloaded {
+			announced[b] = true
+		}
+		for _, b := range rp.loads {
+			if !announced[b] {
+				return fail(ptarget, "loaded-was-announced", "not-announced", fmt.Sprintf("block %d was loaded but never announced to the preloader (announced %v, loaded %v)", b, rp.preloaded, rp.loads)), checks
+			}
+		}
+		checks += 3
+	}
 	if wantErr != "" {
 		wantPath := ""
 		if ps, ok := cs.Err[1].([]interface{}); ok {
